@@ -14,7 +14,7 @@ for d in spec/*/; do
 done
 fail=0
 for f in "$tmp"/spec/*/*.tla; do
-  ( cd "$(dirname "$f")" && java -cp /opt/veriftools/tla/tla2tools.jar:/opt/veriftools/tla/CommunityModules-deps.jar tla2sany.SANY "$(basename "$f")" >"$f.out" 2>&1 ) || true
+  ( cd "$(dirname "$f")" && java -Djava.io.tmpdir="$tmp" -cp /opt/veriftools/tla/tla2tools.jar:/opt/veriftools/tla/CommunityModules-deps.jar tla2sany.SANY "$(basename "$f")" >"$f.out" 2>&1 ) || true
   if grep -qE "^(\*\*\* Errors|Fatal errors|Could not|Lexical error|\*\*\*Parse Error|Semantic errors)" "$f.out"; then echo "SANY FAILED: $f"; cat "$f.out"; fail=1; fi
 done
 [ $fail = 0 ] || exit 1
